@@ -560,6 +560,7 @@ def run_engine_p(ctx, pg, prop, emit_args=None, features=(), case_file=None):
         results = farm.run_jobs(jobs, work, rlib, deps)
         agg = {"jobs": len(results), "run_ok": 0, "lines_compared": 0, "reject_ok": 0, "reject_other_family": [], "accept_ok": 0, "pairs_ok": 0, "emit_stats": stats, "samples": [], "error_codes": {}}
         by_id = {r["id"]: r for r in results}
+        twin_rejected = []
         for r in results:
             st = r["status"]
             if st == "timeout":
@@ -567,7 +568,8 @@ def run_engine_p(ctx, pg, prop, emit_args=None, features=(), case_file=None):
             if st == "twin-rejected":
                 # the twin proves the negative is otherwise well formed; if it does not compile the
                 # pair says nothing (harness / tree incompatibility): inconclusive, not a violation
-                raise Inconclusive("sound twin %s does not compile: %s" % (r["file"], r.get("why", "")))
+                twin_rejected.append("sound twin %s does not compile: %s" % (r["file"], r.get("why", "")))
+                continue
             if st == "violation":
                 dst_dir = os.path.join(found_dir(prop), r["id"])
                 os.makedirs(dst_dir, exist_ok=True)
@@ -596,6 +598,9 @@ def run_engine_p(ctx, pg, prop, emit_args=None, features=(), case_file=None):
                     agg["samples"].append({"negative_program": r["file"], "note": r["note"], "rustc": (r.get("codes") or r.get("messages"))[:2]})
             else:
                 agg["accept_ok"] += 1
+        if twin_rejected and not ctx.violations:
+            raise Inconclusive(twin_rejected[0] + (" (and %d more)" % (len(twin_rejected) - 1) if len(twin_rejected) > 1 else ""))
+        agg["twins_rejected"] = twin_rejected
         if len(agg["samples"]) < 4:
             for j in jobs:
                 if j["kind"] == "run":
@@ -650,6 +655,231 @@ def check_c17(ctx):
     check_history(ctx, features=("events",))
 
 
-HANDLERS = {"C17": check_c17, "C14": check_c14, "C03": check_c03, "C10": check_c10, "C11": check_c11, "C05": check_program_prop, "C15": check_program_prop, "C16": check_program_prop, "C18": check_program_prop}
-for _p in ("C01", "C02", "C04", "C06", "C07", "C08", "C09", "C12", "C13"):
+C19_RULE = ("configurations = all 8 subsets of {events, 32_components, wrapping_version} x {debug assertions on (chk), off (rel)}; in each, the same seeded mixed histories (oracles of C01 C02 C04 C06 C07 C08 C09 C12 C13 C14, event oracles where the feature exists, WWide with 17- and 32-component archetypes where available) must pass every oracle, and the trace of what the oracles are lenient about (handles issued, capacity after every step, iteration order, dense indices, acceptance of direct handles after creations only) must be identical across all 16 builds for every history (no history of this profile crosses a generation boundary or forges handles); the wrapping_version builds additionally run boundary-crossing histories (generation presets); documented deltas are checked by compiling fixed client programs under each feature set (event API exists iff events; 17- and 32-component archetypes compile iff 32_components; 16 components always); "
+            "non-trivial = a (configuration, history) pair whose history contains growth with live entities, slot reuse of depth >= 2 and a clone (for the wrapping runs: one that crosses the boundary); distinct = (configuration, history hash)")
+
+C19_PROGRAMS = {
+    "events_api": ("""#![forbid(unsafe_code)]
+#![allow(warnings)]
+use gecs::prelude::*;
+pub struct CompA(pub u64);
+ecs_world! { ecs_archetype!(ArchFoo, CompA); ecs_archetype!(ArchBar, CompA); }
+fn main() {
+    let mut world = EcsWorld::new();
+    let e = world.create::<ArchFoo>((CompA(1),));
+    world.destroy(e);
+    let a = world.iter_created().count();
+    let b = world.iter_destroyed().count();
+    let c = world.archetype::<ArchFoo>().iter_created().count() + world.archetype::<ArchFoo>().iter_destroyed().count();
+    world.arch_bar.clear_events();
+    world.clear_events();
+    println!("{} {} {} {}", a, b, c, world.iter_created().count());
+}
+""", "events"),
+    "comps_16": (None, None),
+    "comps_17": (None, "32_components"),
+    "comps_32": (None, "32_components"),
+}
+
+
+def _comps_program(n):
+    names = ["K%s%s" % (chr(65 + i // 26), chr(97 + i % 26)) for i in range(n)]
+    decls = "\n".join("pub struct %s(pub u64);" % c for c in names)
+    vals = ", ".join("%s(%d)" % (c, i) for i, c in enumerate(names))
+    return ("#![forbid(unsafe_code)]\n#![allow(warnings)]\nuse gecs::prelude::*;\n%s\necs_world! { ecs_archetype!(ArchBig, %s); }\n"
+            "fn main() { let mut world = EcsWorld::new(); let e = world.create::<ArchBig>((%s,)); let mut s = 0; ecs_find!(world, e, |a: &%s, z: &%s| { s = a.0 + z.0; }); println!(\"{}\", s + world.arch_big.len() as u64); }\n"
+            % (decls, ", ".join(names), vals, names[0], names[-1]))
+
+
+def c19_feature_programs(ctx):
+    """Documented deltas: compiled under every feature set that matters."""
+    import farm
+    results = []
+    for feats in [(), ("events",), ("32_components",), ("events", "32_components", "wrapping_version")]:
+        rlib, deps = farm.build_gecs(feats)
+        work = os.path.join(VERIF, ".work", "C19-p-%d" % os.getpid())
+        shutil.rmtree(work, ignore_errors=True)
+        os.makedirs(work)
+        try:
+            jobs = []
+            for name, (src, needs) in C19_PROGRAMS.items():
+                if src is None:
+                    src = _comps_program(int(name.split("_")[1]))
+                with open(os.path.join(work, name + ".rs"), "w") as f:
+                    f.write(src)
+                must_compile = needs is None or needs in feats
+                jobs.append({"id": "C19-%s-%s" % (name, "+".join(feats) or "default"), "kind": "accept" if must_compile else "reject", "file": name + ".rs", "flags": [],
+                             "expect": "E0599|E0412|E0433|E0405|cannot find|no method", "note": "features %s" % (list(feats),)})
+            for r in farm.run_jobs(jobs, work, rlib, deps):
+                results.append(r)
+                if r["status"] == "violation" or r["status"] == "twin-rejected":
+                    dst = os.path.join(found_dir("C19"), r["id"])
+                    os.makedirs(dst, exist_ok=True)
+                    shutil.copyfile(os.path.join(work, r["file"]), os.path.join(dst, r["file"]))
+                    what = "compiles although the feature that documents it is off" if r["kind"] == "reject" else "does not compile although its feature is on: %s" % r.get("why", "")
+                    report_failure(ctx, "feature-delta", dst, "[features %s] %s %s" % (r["note"], r["file"], what))
+        finally:
+            shutil.rmtree(work, ignore_errors=True)
+    return results
+
+
+def check_c19(ctx):
+    from concurrent.futures import ThreadPoolExecutor
+    subsets = []
+    for ev in (False, True):
+        for wi in (False, True):
+            for wr in (False, True):
+                subsets.append(tuple(f for f, on in (("events", ev), ("wide", wi), ("wrapping", wr)) if on))
+
+    def build_pair(feats):
+        return feats, {"chk": build_harness("chk", feats), "rel": build_harness("rel", feats)}
+
+    with ThreadPoolExecutor(max_workers=8) as ex:
+        built = dict(ex.map(build_pair, subsets))
+    bins = {}
+    for feats, pair in built.items():
+        for prof, b in pair.items():
+            bins["%s:%s" % ("+".join(feats) or "default", prof)] = (feats, b)
+    # replays on every build; for a differential replay the traces must agree
+    files = sorted(glob.glob(os.path.join(VERIF, "replays", "C19", "*.ops"))) + ([ctx.replay] if ctx.replay else [])
+    jobs = [((f, name), [b, "replay", "--prop", "C19", "--intensity", "normal", f]) for f in files for name, (feats, b) in bins.items()]
+    rres = run_many(jobs, 900)
+    for f in files:
+        traces = {}
+        for name in bins:
+            rc, out = rres[(f, name)]
+            if rc == 1:
+                for line in out.splitlines():
+                    if line.startswith("FAIL "):
+                        d = parse_line(line)
+                        report_failure(ctx, d.get("sig", "?"), f, "[%s] %s" % (name, d.get("msg", "")))
+            elif rc != 0:
+                report_failure(ctx, "crash", f, "[%s] replay died with status %s" % (name, rc))
+            else:
+                m = [l for l in out.splitlines() if l.startswith("PASS ")]
+                if m:
+                    traces[name] = parse_line(m[0]).get("trace")
+        # WWide cases only exist in the wide builds; compare whatever ran
+        if len(set(traces.values())) > 1:
+            report_failure(ctx, "trace-differs", f, "observable trace differs between configurations: %s" % traces)
+    if ctx.replay:
+        write_evidence(ctx, "exploration", {"evaluations": len(files) * len(bins), "distinct_nontrivial": 2, "rule": "replay of saved inputs on all 16 builds", "samples": [open(ctx.replay).read()]}, HIST_ASSUMPTIONS)
+        return
+    shards, cases, maxlen = (2, 350, 100) if ctx.tier == "quick" else (8, 5000, 300)
+    work = os.path.join(VERIF, ".work", "C19-%d" % os.getpid())
+    os.makedirs(work, exist_ok=True)
+    jobs = []
+    for name, (feats, b) in sorted(bins.items()):
+        plan = [("C19", "WMix" if s % 2 == 0 else "WOne", s) for s in range(shards)]
+        plan.append(("C19F", "WMix", 300))  # C03's forged-handle oracle holds in every configuration too
+        if "wide" in feats:
+            plan.append(("C19", "WWide", 100))
+        if "wrapping" in feats:
+            plan.append(("C19W", "WOne", 200))
+            plan.append(("C19W", "WMix", 201))
+        for prop_run, world, s in plan:
+            seed = ctx.sub_seed("c19", prop_run, world, s)  # the same seed in every configuration
+            base = os.path.join(work, "%s-%s-%d" % (name.replace(":", "_").replace("+", "_"), prop_run, s))
+            jobs.append(((name, prop_run, world, s, seed), [b, "hist", "--prop", prop_run, "--world", world, "--cases", str(cases), "--len", str(maxlen), "--seed", str(seed), "--traces",
+                                                            "--out", base + ".json", "--fail-out", base + ".ops", "--last-case", base + ".last"]))
+    res = run_many(jobs, 3600 if ctx.tier == "quick" else 14400)
+    evaluations = 0
+    hashes = set()
+    labels = {}
+    samples = []
+    traces = {}  # (prop_run, world, shard, case hash) -> {config: trace}
+    collateral = {}
+    try:
+        for key in sorted(res):
+            name, prop_run, world, s, seed = key
+            rc, out = res[key]
+            base = os.path.join(work, "%s-%s-%d" % (name.replace(":", "_").replace("+", "_"), prop_run, s))
+            if rc is None:
+                raise Inconclusive("C19 shard %s timed out" % (key,))
+            if rc not in (0, 1):
+                dst = os.path.join(found_dir("C19"), "crash-%s-%d.ops" % (name.replace(":", "_").replace("+", "_"), seed))
+                if os.path.exists(base + ".last"):
+                    with open(dst, "w") as f:
+                        f.write("# property C19\n# process died with status %s on build %s\n%s" % (rc, name, open(base + ".last").read()))
+                    report_failure(ctx, "crash", dst, "[%s] shard died with status %s: %s" % (name, rc, out[-300:]))
+                    continue
+                raise Inconclusive("C19 shard died with status %s: %s" % (rc, out[-300:]))
+            st = json.load(open(base + ".json"))
+            evaluations += st["evaluations"]
+            for h in st["nontrivial_hashes"]:
+                hashes.add((name, h))
+            for k, v in st["labels"].items():
+                labels[k] = labels.get(k, 0) + v
+            for k, v in st["collateral"].items():
+                collateral[k] = collateral.get(k, 0) + v
+            if len(samples) < 2:
+                samples.extend(st["samples"][:1])
+            for h, t in st["traces"]:
+                traces.setdefault((prop_run, world, s, seed, h), {})[name] = t
+            if rc == 1:
+                for line in out.splitlines():
+                    if line.startswith("FAIL "):
+                        d = parse_line(line)
+                        dst = os.path.join(found_dir("C19"), "%s-%s-%d.ops" % (d.get("sig", "fail"), name.replace(":", "_").replace("+", "_"), seed))
+                        shutil.copyfile(base + ".ops", dst)
+                        report_failure(ctx, d.get("sig", "?"), dst, "[%s, %s] %s" % (name, world, d.get("msg", "")))
+        # differential: same history, same trace, in every configuration that ran it
+        compared = 0
+        reported = 0
+        for (prop_run, world, s, seed, h), per in sorted(traces.items()):
+            if prop_run != "C19":
+                continue  # boundary-crossing histories legitimately differ between wrapping and default builds
+            compared += 1
+            if len(set(per.values())) > 1 and reported < 3:
+                reported += 1
+                # recover the case text from its hash
+                name0 = sorted(per)[0]
+                b0 = bins[name0][1]
+                dst = os.path.join(found_dir("C19"), "trace-differs-%s.ops" % h)
+                subprocess.run([b0, "hist", "--prop", "C19", "--world", world, "--cases", str(cases), "--len", str(maxlen), "--seed", str(seed), "--dump-hash", h, "--dump-out", dst],
+                               cwd=VERIF, stdout=subprocess.DEVNULL, stderr=subprocess.DEVNULL)
+                groups = {}
+                for n, t in per.items():
+                    groups.setdefault(t, []).append(n)
+                report_failure(ctx, "trace-differs", dst, "the same history yields different observable traces in different configurations: %s" % {t: sorted(ns) for t, ns in groups.items()})
+    finally:
+        shutil.rmtree(work, ignore_errors=True)
+    progs = c19_feature_programs(ctx)
+    cov = {
+        "evaluations": evaluations + len(progs),
+        "distinct_nontrivial": len(hashes),
+        "rule": C19_RULE,
+        "samples": samples or ["(no short sample)"],
+        "exhaustive": False,
+        "configurations": sorted(bins.keys()),
+        "histories_compared_across_configurations": compared,
+        "label_histogram": labels,
+        "collateral": collateral,
+        "feature_delta_programs": [{"id": r["id"], "kind": r["kind"], "status": r["status"]} for r in progs],
+        "regression_replays": len(files),
+    }
+    write_evidence(ctx, "exploration", cov, HIST_ASSUMPTIONS + ["the differential compares only what the oracle is lenient about; everything else is already pinned by the model in every configuration"])
+
+
+def check_c08(ctx):
+    import farm
+    bins = {"chk": build_harness("chk"), "rel": build_harness("rel")}
+    extra = [ctx.replay] if ctx.replay else []
+    nfiles, _ = run_replays(ctx, bins, extra)
+    if ctx.replay:
+        write_evidence(ctx, "exploration", {"evaluations": nfiles, "distinct_nontrivial": 2, "rule": "replay of saved inputs only", "samples": [open(ctx.replay).read()]}, HIST_ASSUMPTIONS)
+        return
+    agg = hist_search(ctx, bins)
+    # "not across archetypes" also rests on ecs_world! refusing two archetypes with one id
+    pg = farm.build_pg()
+    p = run_engine_p(ctx, pg, "C08", emit_args=["--pairs", "24" if ctx.tier == "quick" else "200"])
+    cov = hist_coverage(ctx, agg, nfiles, rule_of("C08") + "; in addition generated ecs_world! declarations in which two archetypes would share an id (explicitly or through an implicit successor) must be rejected by the compiler while their id-free twins compile", bins)
+    cov["evaluations"] += p["jobs"]
+    cov["distinct_nontrivial"] += p["pairs_ok"]
+    cov["archetype_id_collision_programs"] = {k: v for k, v in p.items() if k != "samples"}
+    write_evidence(ctx, "exploration", cov, HIST_ASSUMPTIONS + ["rustc for the declaration-level part"])
+
+
+HANDLERS = {"C19": check_c19, "C08": check_c08, "C17": check_c17, "C14": check_c14, "C03": check_c03, "C10": check_c10, "C11": check_c11, "C05": check_program_prop, "C15": check_program_prop, "C16": check_program_prop, "C18": check_program_prop}
+for _p in ("C01", "C02", "C04", "C06", "C07", "C09", "C12", "C13"):
     HANDLERS[_p] = check_history
